@@ -502,7 +502,16 @@ impl Engine for C18Engine {
             v.insert(1, m);
             v
         });
-        prop_oneof![2 => hist, 2 => vecw, 1 => arenaw].boxed()
+        // family 3: the collections slot machine of C13/C14 (every Vec/String operation, several collections and raw
+        // neighbours in one arena) with the capacity oracles only: a push within capacity stays in place, room promised
+        // by with_capacity_in / reserve is still there after any later operation, a String's capacity is never lowered
+        // except by shrink_to_fit / wholesale assignment
+        let w: [u32; 30] = [10, 4, 6, 6, 4, 4, 2, 4, 5, 4, 5, 4, 7, 6, 4, 5, 3, 8, 4, 2, 1, 1, 2, 1, 2, 7, 4, 5, 3, 3];
+        let collw = crate::coll_eng::coll_strategy(&w, 40).prop_map(|mut v| {
+            v.insert(0, 3);
+            v
+        });
+        prop_oneof![3 => hist, 3 => vecw, 2 => arenaw, 2 => collw].boxed()
     }
     fn run(&self, bytes: &[u8]) -> CaseOut {
         let mode = bytes.first().cloned().unwrap_or(0);
@@ -544,6 +553,14 @@ impl Engine for C18Engine {
                 stats.extend_from_slice(&[1, r.reallocs, r.ops, 0, 0]);
                 CaseOut { viol: r.viol, nontrivial: r.reallocs >= 4, hash: fnv(bytes), stats, ..Default::default() }
             }
+            3 => {
+                let ctx = crate::coll_eng::run_coll_case(&bytes[1..]);
+                let mut stats = vec![0u32; NST];
+                stats.extend_from_slice(&[0, ctx.stats[crate::vec_eng::V::Reallocs as usize], 0, 0, 0]);
+                let viol: Vec<String> = ctx.viol.iter().filter(|(p, _)| *p == "C18").map(|(_, m)| m.clone()).collect();
+                let other: Vec<String> = ctx.viol.iter().filter(|(p, _)| *p != "C18").map(|(p, _)| p.to_string()).collect();
+                CaseOut { viol, other, nontrivial: ctx.stats[crate::vec_eng::V::Reallocs as usize] > 0, hash: fnv(bytes), stats, ..Default::default() }
+            }
             _ => {
                 let _ = k_meta();
                 ledger::begin_case(6);
@@ -566,6 +583,11 @@ impl Engine for C18Engine {
             0 => self.inner.describe(&bytes[1..]),
             1 => json!({"family": "Vec/String growth workload", "element": (["u8", "u16", "u32", "u64", "u128", "[u64;3]", "[u64;8]", "String"][(bytes.get(1).cloned().unwrap_or(0) % 8) as usize]),
                         "ops": bytes.get(2..).unwrap_or(&[]).chunks(2).map(|c| format!("{}({})", ["push-run", "push-run", "extend_from_slice_copy", "extend_from_slice_copy", "extend(iter)", "reserve+fill", "clear", "truncate(half)", "pop-run", "neighbour alloc", "reserve+extend(loosely hinted iterator)", "from_iter_in(loosely hinted iterator)"][(c[0] % 12) as usize], c.get(1).cloned().unwrap_or(0))).collect::<Vec<_>>()}),
+            3 => {
+                let mut d = crate::coll_eng::describe_coll(&bytes[1..]);
+                d["family"] = json!("collections slot machine, capacity oracles");
+                d
+            }
             _ => json!({"family": "arena capacity partition + volume workload", "min_align": ([1, 2, 4, 8, 16][(bytes.get(1).cloned().unwrap_or(0) % 5) as usize]), "bytes_hex": hex(bytes)}),
         }
     }
@@ -584,7 +606,7 @@ impl Engine for C18Engine {
         }
     }
     fn rule(&self) -> String {
-        "three proptest-generated families: (0) single-arena histories with chunk_capacity honesty probes and provably-fitting requests; (1) Vec<T> (T of 1..64 bytes) and String workloads of push runs, bulk extends, reserve+fill, clear/truncate/pop and neighbour allocations: pushes within capacity never move the buffer, reserved room is usable in place, every growth at least doubles, reallocations <= log2(capacity ratio)+3, final capacity <= 4x the most ever needed; (2) arenas built with a capacity: the capacity is served as a generated partition (sizes multiple of MIN_ALIGN, align <= MIN_ALIGN) with zero global-allocator events, then a volume workload (1 KiB..4 MiB quick, ..64 MiB thorough; four size distributions): chunk sizes non-decreasing, #chunks <= 2*log2(held/256)+4, held <= 8x occupied + 16 KiB + 2x capacity. non-trivial = history with >= 4 chunks, Vec workload with >= 4 reallocations, arena workload with >= 4 chunks; distinct = distinct case bytes".into()
+        "four proptest-generated families: (3) the collections slot machine of C13/C14 with the capacity oracles only (push within capacity stays in place; room promised by with_capacity_in/reserve survives every later operation incl. both operands of append; a String's capacity is only lowered by shrink_to_fit or wholesale assignment), non-trivial = at least one reallocation; (0) single-arena histories with chunk_capacity honesty probes and provably-fitting requests; (1) Vec<T> (T of 1..64 bytes) and String workloads of push runs, bulk extends, reserve+fill, clear/truncate/pop and neighbour allocations: pushes within capacity never move the buffer, reserved room is usable in place, every growth at least doubles, reallocations <= log2(capacity ratio)+3, final capacity <= 4x the most ever needed; (2) arenas built with a capacity: the capacity is served as a generated partition (sizes multiple of MIN_ALIGN, align <= MIN_ALIGN) with zero global-allocator events, then a volume workload (1 KiB..4 MiB quick, ..64 MiB thorough; four size distributions): chunk sizes non-decreasing, #chunks <= 2*log2(held/256)+4, held <= 8x occupied + 16 KiB + 2x capacity. non-trivial = history with >= 4 chunks, Vec workload with >= 4 reallocations, arena workload with >= 4 chunks; distinct = distinct case bytes".into()
     }
     fn assumptions(&self) -> Vec<String> {
         vec!["the numeric bounds are deliberately loose: they separate geometric from linear growth, nothing finer".into(), "reserve_exact / shrink_to_fit are not part of the growth workloads (they are not amortised by design)".into()]
